@@ -737,6 +737,11 @@ def process_rows(row, row_sx, row_ex, no_go, row_space, r_a, rotate, intersectio
                 inters[i + 1][1] += d * sin(rotate)
                 inters[i][0] -= d * cos(rotate)
                 inters[i][1] -= d * sin(rotate)
+                # the widened gap ends at the ends of the row: it must not reach outside the property
+                if inters[i][0] * cos(rotate) + inters[i][1] * sin(rotate) < row_sx[0] * cos(rotate) + row_sx[1] * sin(rotate):
+                    inters[i] = row_sx
+                if inters[i + 1][0] * cos(rotate) + inters[i + 1][1] * sin(rotate) > row_ex[0] * cos(rotate) + row_ex[1] * sin(rotate):
+                    inters[i + 1] = row_ex
     if num_col < 1:
         ins = False
         for shape in no_go:
